@@ -205,21 +205,21 @@ type SigTriple struct{ Key, Msg, Sig []byte }
 
 type World struct {
 	CloseErr error // what the last Close() of the server returned
-	Dir     string
-	S       *server.GCAServer
-	Temp    Key
-	Now     uint32
-	Now0    uint32
-	Fresh   [2][]byte
-	Sigs    []SigTriple
-	Hops    []string
-	Desc    []interface{}
-	UseHTTP bool
-	Crashes []CrashImage
-	crashN  int
-	OnHop   func(n int) // called after the n-th hop was recorded
-	client  *http.Client
-	Failed  string // set when the world could not be driven (not a property failure)
+	Dir      string
+	S        *server.GCAServer
+	Temp     Key
+	Now      uint32
+	Now0     uint32
+	Fresh    [2][]byte
+	Sigs     []SigTriple
+	Hops     []string
+	Desc     []interface{}
+	UseHTTP  bool
+	Crashes  []CrashImage
+	crashN   int
+	OnHop    func(n int) // called after the n-th hop was recorded
+	client   *http.Client
+	Failed   string // set when the world could not be driven (not a property failure)
 }
 
 func (w *World) Sign(msg []byte, k Key) glow.Signature {
@@ -769,6 +769,34 @@ func (w *World) ImpactRound(val func(id uint32) (float64, uint32), between func(
 		}
 		w.hop(fmt.Sprintf("HOp (OpImpact %d %d %d) %s", x.id, x.ts, math.Float64bits(x.v), ob), map[string]interface{}{"op": "impact", "id": x.id, "ts": x.ts, "v": x.v, "note": note})
 	}
+	return
+}
+
+// Recent queries GET /api/v1/recent-reports for a public key and records the reply (the non-blank
+// slots of the window served, or "not found") for comparison with the model's recent_view.
+func (w *World) Recent(key glow.PublicKey, note string) (found bool, slots map[int]glow.EquipmentReport, status int) {
+	rr := w.do("GET", "/api/v1/recent-reports?publicKey="+hex.EncodeToString(key[:]), nil)
+	status = rr.Status
+	ob := "(ObsRecent None)"
+	slots = map[int]glow.EquipmentReport{}
+	if rr.Status == 200 {
+		var resp server.RecentReportsResponse
+		if err := json.Unmarshal(rr.Body, &resp); err == nil {
+			found = true
+			var blank glow.EquipmentReport
+			xs := []string{}
+			for i, r := range resp.Reports {
+				if r != blank {
+					slots[i] = r
+					xs = append(xs, fmt.Sprintf("(%d, %s)", i, CoqReport(r)))
+				}
+			}
+			ob = "(ObsRecent (Some " + core.List(xs) + "))"
+		}
+	} else if rr.Panicked || rr.Err != nil {
+		ob = "ObsPanic"
+	}
+	w.hop(fmt.Sprintf("HRecent %s %s", H(key[:]), ob), map[string]interface{}{"op": "recent-reports", "key": hex.EncodeToString(key[:8]), "status": rr.Status, "slots": len(slots), "note": note})
 	return
 }
 
